@@ -1,5 +1,7 @@
 mod btree;
+mod capi;
 mod cypher;
+mod sched;
 mod dump;
 mod obs;
 mod storage;
@@ -87,6 +89,14 @@ fn main() {
             let out = std::fs::File::create(a.get("out").expect("--out")).unwrap();
             let mut w = BufWriter::new(out);
             let stats = cypher::run_sessions(&sessions, &mut w, &scratch);
+            println!("{stats}");
+        }
+        "snap" | "incr" => {
+            let scenarios = read_ndjson(a.get("in").expect("--in"));
+            let out = std::fs::File::create(a.get("out").expect("--out")).unwrap();
+            let mut w = BufWriter::new(out);
+            let stats = if args[1] == "snap" { sched::run_snap(&obs, &scenarios, &mut w, &scratch) }
+                        else { sched::run_incr(&obs, &scenarios, &mut w, &scratch) };
             println!("{stats}");
         }
         "keys" => {
